@@ -650,10 +650,11 @@ theorem C14_dyn_db_replace (d : DNode) (F f sF : String) (src old : File) (G : F
         { name := f, actual := src.actual, visible := old.visible, deleted := false } := by
   simp only [DNode.apply, DNode.dbReplace, hsrc, hG, hold]
 
-/-- …and when only a DELETED folder of that name holds the database file, `copy_file` creates a NEW folder of that name for the
+/-- …and when only DELETED folders of that name exist (the first in deletion order is consulted), `copy_file` creates a NEW folder of that name for the
 copy, which again shows what the (deleted) file showed. -/
 theorem C14_dyn_db_replace_deleted_folder (d : DNode) (F f sF : String) (src old : File) (G : Folder)
-    (hsrc : d.n.liveFile? sF f = some src) (hno : d.n.liveFolder? F = none) (hG : d.n.findFolder F = some G)
+    (hsrc : d.n.liveFile? sF f = some src) (hno : d.n.liveFolder? F = none)
+    (hG : d.n.folders.find? (fun G => G.name = F && firstDeletedFolder d.n.folders G) = some G)
     (hold : firstAny f G.files = some old) :
     (d.apply (.dbReplace F f sF)).n =
       (d.createFolder F).n.addFile F { name := f, actual := src.actual, visible := old.visible, deleted := false } := by
